@@ -212,16 +212,22 @@ class LastLook(Auto):
     name = "last-look"
 
     def initial(self):
-        return ("I", None, None)
+        return ("I", None, None, False)
 
     def key(self, s):
         return s[0]
 
     def event(self, state, ev, where):
         if ev[0] == "prim" and ev[1] == "look":
-            return ("O", "%s [%s]" % (short(where[1].id), where[1].loc(where[2])), ev[3] if len(ev) > 3 else "look")
+            return ("O", "%s [%s]" % (short(where[1].id), where[1].loc(where[2])), ev[3] if len(ev) > 3 else "look", True)
         if ev[0] == "prim" and ev[1] in ("request", "request_more"):
-            return ("O", "%s [%s] explicit request" % (short(where[1].id), where[1].loc(where[2])), None)
+            return ("O", "%s [%s] explicit request" % (short(where[1].id), where[1].loc(where[2])), None, True)
+        if ev[0] == "prim" and ev[1] in ("advance", "advance_with_buf"):
+            n = ev[2][1] if len(ev[2]) > 1 else A.TOP
+            if not (n[0] == "i" and n[1] == 0):
+                # what was looked at so far lies (for a record that is not line terminated: entirely) behind the cursor
+                return (state[0], state[1], state[2], False)
+            return state
         if ev[0] == "narrow" and ev[1] == "look":
             # the answer that is being examined may be an older one (`let a = look(o); let b = look(o + 1); match (a, b)`):
             # what counts is the most recent request, and that one went further
@@ -230,12 +236,12 @@ class LastLook(Auto):
                 return state
             names = dict(ev[2][2])
             site = "%s [%s]" % (short(where[1].id), where[1].loc(where[2]))
-            state = (state[0], state[1], last)
+            behind = state[3] if len(state) > 3 else True
             if set(names) == {"None"}:
-                return ("E", site, last)
+                return ("E", site, last, behind)
             if set(names) == {"Some"} and names["Some"] is not None and names["Some"][0] == "byte" and names["Some"][1] == (1 << 10):
-                return ("X", site, last)
-            return ("O", site, last)
+                return ("X", site, last, behind)
+            return ("O", site, last, behind)
         return state
 
 
@@ -250,6 +256,7 @@ for _m in ("ascii", "binary"):
 # binary and-gate records are not line terminated: the varint's continuation bit ends the item
 R2_EXEMPT[("flussab_aiger::binary::ParseAndGates::next_and_gate", "Ok(Some)")] = "binary and-gate records end with the last varint byte, not with a newline"
 R2_EXEMPT[("flussab_aiger::binary::ParseAndGates::symbols", "Ok")] = "follows the last binary and-gate record (no newline)"
+R2_RECORD = {("flussab_aiger::binary::ParseAndGates::next_and_gate", "Ok(Some)"), ("flussab_aiger::binary::ParseAndGates::symbols", "Ok")}
 
 
 def run_r2(ctx, rule):
@@ -278,6 +285,13 @@ def run_r2(ctx, rule):
             what = "%s returns %s with the last look-ahead answer being the line terminator or end of input" % (nid, sh)
             if not over:
                 rule.ok(what, fn.loc(), "exit states %s" % sorted(set(s[0] for s in states)))
+            elif (nid, sh) in R2_EXEMPT and (nid, sh) in R2_RECORD:
+                # a record that ends with its last byte instead of a line end: nothing may be requested behind the cursor
+                beyond = sorted(set(s[1] for s in states if s[0] == "O" and len(s) > 3 and s[3]))
+                if beyond:
+                    rule.bad("%s/%s" % (nid, sh), "%s can return %s after asking for a byte behind the record it consumed (an interactive source would block)" % (nid, sh), fn.loc(), path=["look-ahead behind the consumed record at: " + p for p in beyond])
+                else:
+                    rule.ok(what.replace("the line terminator or end of input", "inside the record it consumed") + " [record without a line end]", fn.loc(), R2_EXEMPT[(nid, sh)])
             elif (nid, sh) in R2_EXEMPT:
                 rule.ok(what + " [exempt shape]", fn.loc(), "exempt: " + R2_EXEMPT[(nid, sh)])
             else:
